@@ -136,7 +136,7 @@ def run_scenario(sc, timeout=1.0):
         which = sc["raises"].get("events", "all")
         which = set() if which == "none" else which
         for e in NOTIFICATIONS:
-            for lst in (hs, rq_hs):
+            for lst in (hs, rq_hs) * int(sc["raises"].get("handlers", 1)):      # several handlers bound to the same event
                 r, h = make_raiser(which, sc["raises"].get("flavour", "noname"), e.name)
                 raisers.append(r)
                 lst.append((e, h))
